@@ -541,7 +541,7 @@ def strat_fits(draw, tier="quick"):
     mini = draw(st.sampled_from(["iminuit", "iminuit", "scipy"]))
     if t == "xy":
         spec = draw(S.xy_spec(families=["line", "quad", "expo", "sincos"], costs=("chi2", "chi2", "chi2_covariance", "nll_gaussian"), n_sources=(1, 4), limits=True, minimizers=(mini,),
-                              model_only_first=0.1, min_points=5, sigma_rel=(0.01, 0.08)))
+                              model_only_first=0.1, min_points=5, sigma_rel=(0.01, 0.08), permute_params=True))
     elif t == "indexed":
         spec = draw(S.indexed_spec(costs=("chi2",), n_sources=(1, 3), minimizers=(mini,)))
     elif t == "hist":
@@ -556,7 +556,7 @@ def strat_fits(draw, tier="quick"):
             spec["sources"].insert(0, {"name": "base", "ref": "data", "axis": "y" if t == "xy" else None, "kind": "simple", "scalar": True, "err": [spec["sigma"]] * 8, "rho": 0.0,
                                        "relative": False, "enabled": True})
     return {"spec": spec, "fitted": draw(st.booleans()), "asym": draw(st.sampled_from([False, False, True])), "pts": draw(st.lists(st.lists(st.floats(-0.2, 0.2), min_size=4, max_size=4), min_size=3, max_size=3)),
-            "via": draw(st.sampled_from(["own", "base"]))}
+            "via": draw(st.sampled_from(["own", "base"])), "one_sided": draw(st.sampled_from([None, None, "lower", "upper"]))}
 
 
 def _fit_observables(fit, names, pts, tb, fixed):
@@ -565,7 +565,7 @@ def _fit_observables(fit, names, pts, tb, fixed):
     out["values"] = np.asarray(fit.parameter_values, float).copy()
     out["data"] = np.asarray(fit.data, float)
     out["fixed"] = {k_: float(v) for k_, v in fit._fitter.fixed_parameters.items()}
-    out["limited"] = {k_: [float(x) for x in v] for k_, v in fit._fitter.limited_parameters.items()}
+    out["limited"] = {k_: [None if x is None else float(x) for x in v] for k_, v in fit._fitter.limited_parameters.items()}
     out["did_fit"] = bool(fit.did_fit)
     out["n_constraints"] = len(fit.parameter_constraints)
     srcs = fit.get_matching_errors()
@@ -582,7 +582,7 @@ def _fit_observables(fit, names, pts, tb, fixed):
             if nm in p and nm not in fixed:
                 p[nm] = abs(p[nm]) + 0.2
         for nm, (lo, hi) in out["limited"].items():
-            p[nm] = min(max(p[nm], lo), hi)
+            p[nm] = min(max(p[nm], -np.inf if lo is None else lo), np.inf if hi is None else hi)
         fit.set_parameter_values(**{nm: v for nm, v in p.items() if nm not in fixed})
         costs.append(float(fit.cost_function_value))
         covs.append(None if fit.total_cov_mat is None else np.asarray(fit.total_cov_mat, float).copy())
@@ -604,6 +604,14 @@ def run_fits(case):
         raise Discard("denormal parameter value (the default step 0.1 * |value| underflows to 0): not a realistic input")
     with guard(f"build[{spec['type']}]"):
         fit = fs.build(spec)
+        if case.get("one_sided") and spec.get("limits"):
+            # one-sided limits: only the lower / only the upper bound of each limited parameter is kept
+            for nm, (lo, hi) in spec["limits"].items():
+                fit.unlimit_parameter(nm)
+                if case["one_sided"] == "lower":
+                    fit.limit_parameter(nm, lower=lo)
+                else:
+                    fit.limit_parameter(nm, upper=hi)
     if case["fitted"]:
         try:
             fit.do_fit(asymmetric_parameter_errors=case["asym"] and spec["minimizer"] == "iminuit")
@@ -631,6 +639,25 @@ def run_fits(case):
         asym1 = r.get_result_dict()["asymmetric_parameter_errors"]
         if (asym0 is None) != (asym1 is None) or (asym0 is not None and not _eq(np.array(list(asym0.values())), np.array(list(asym1.values())))):
             raise Violation(f"fit[{spec['type']}]:stored-asymmetric-errors", f"{asym0} / {asym1}")
+    # the fit *state* (save_state / load_state): a second fit object built the same way takes over values and stored results, by parameter
+    if case["fitted"]:
+        spath = _path("c09_state.yml")
+        with guard(f"fit.save_state[{spec['type']}]"):
+            fit.save_state(spath)
+        with guard(f"build[{spec['type']}]"):
+            twin = fs.build(spec)
+        with guard(f"fit.load_state[{spec['type']}]"):
+            twin.load_state(spath)
+        with guard("state: read"):
+            sv = (np.asarray(twin.parameter_values, float), np.asarray(twin.parameter_errors, float), twin.parameter_cov_mat, twin.get_result_dict()["asymmetric_parameter_errors"])
+            ov = (np.asarray(fit.parameter_values, float), np.asarray(fit.parameter_errors, float), fit.parameter_cov_mat, asym0)
+        if list(twin.parameter_names) != list(fit.parameter_names):
+            raise Violation(f"fit[{spec['type']}]:state:names", f"{list(twin.parameter_names)} / {list(fit.parameter_names)}")
+        for what, a, b in zip(("parameter_values", "parameter_errors", "parameter_cov_mat"), ov[:3], sv[:3]):
+            if not _eq(a, b):
+                raise Violation(f"fit[{spec['type']}]:state:{what}", f"names {list(fit.parameter_names)}: saved {np.asarray(a).tolist()} / after load_state {np.asarray(b).tolist()}")
+        if (ov[3] is None) != (sv[3] is None) or (ov[3] is not None and not _eq(np.array([ov[3][nm] for nm in fit.parameter_names]), np.array([sv[3][nm] for nm in fit.parameter_names]))):
+            raise Violation(f"fit[{spec['type']}]:state:asymmetric_parameter_errors", f"{ov[3]} / {sv[3]}")
     o0 = _fit_observables(fit, names, case["pts"], tb, spec["fixed"])
     o1 = _fit_observables(r, names, case["pts"], tb, spec["fixed"])
     tag = f"fit[{spec['type']}:{spec['cost']}]"
